@@ -33,6 +33,9 @@ const CALL_STATE: u8 = 2;
 const CALL_LOAD: u8 = 4;
 const CALL_OBJECTS: u8 = 8;
 const CALL_ALL: u8 = 15;
+/// Update operations on the (possibly damaged) archive, as the RRDP collector performs them when
+/// the server has moved on: publish, update, delete, state rewrite. Run as a second pass.
+const CALL_WRITE: u8 = 16;
 const RRDP_META: u64 = 32;
 
 //============ code under test, as run by the worker and by the libFuzzer targets ==================
@@ -98,6 +101,9 @@ pub fn decode_record(rec: Rec, data: &[u8]) -> Handled {
 
 /// Runs the RRDP archive readers selected by `calls` on the file at `path`.
 pub fn read_archive(path: &Path, probes: &[uri::Rsync], calls: u8) -> Handled {
+    if calls & CALL_WRITE != 0 {
+        return write_archive(path, probes);
+    }
     let file_len = std::fs::metadata(path).map(|m| m.len()).unwrap_or(0);
     let mut log = Vec::new();
     let mut any_err = false;
@@ -167,6 +173,51 @@ pub fn read_archive(path: &Path, probes: &[uri::Rsync], calls: u8) -> Handled {
         }
     }
     Handled { status: if any_err { 1 } else { 0 }, msg: log.join(" ") }
+}
+
+
+/// The collector's update operations on the archive at `path`; every error is fine, only a panic,
+/// an abort, an excessive allocation or a hang is not. New objects come in sizes from 1 byte to
+/// 12 pages so that every free block of the file is a candidate for reuse.
+pub fn write_archive(path: &Path, probes: &[uri::Rsync]) -> Handled {
+    let mut a = match RrdpArchive::try_open(Arc::new(path.to_path_buf())) {
+        Ok(Some(a)) => a,
+        Ok(None) => return Handled { status: 1, msg: "try_open=none".into() },
+        Err(e) => return Handled { status: 1, msg: format!("try_open=err(fatal={})", e.is_fatal()) },
+    };
+    let (mut ok, mut err) = (0u32, 0u32);
+    let mut tally = |r: bool| if r { ok += 1 } else { err += 1 };
+    // update / delete of what is there (the hash is read back through the archive itself)
+    for (i, p) in probes.iter().enumerate() {
+        let cur = match a.load_object(p) {
+            Ok(Some(c)) => c,
+            _ => continue,
+        };
+        let hash = rpki::rrdp::Hash::from_data(&cur);
+        match i % 3 {
+            0 => {
+                let grown: Vec<u8> = cur.iter().copied().chain(std::iter::repeat(0x5a).take(300)).collect();
+                tally(a.update_object(p, hash, &grown).is_ok());
+            }
+            1 => tally(a.delete_object(p, hash).is_ok()),
+            _ => {
+                let same: Vec<u8> = cur.iter().map(|b| b ^ 1).collect();
+                tally(a.update_object(p, hash, &same).is_ok());
+            }
+        }
+    }
+    for (i, len) in [1usize, 100, 180, 200, 256, 300, 450, 500, 700, 960, 1000, 1200, 1500, 2000, 2500, 3000].iter().enumerate() {
+        let uri = uri::Rsync::from_string(format!("rsync://h.example/m/w{}.cer", i)).unwrap();
+        tally(a.publish_object(&uri, &vec![0x41 + i as u8; *len]).is_ok());
+    }
+    if let Ok(mut st) = a.load_state() {
+        st.serial = st.serial.wrapping_add(1);
+        tally(a.update_state(&st).is_ok());
+    }
+    drop(a);
+    // what was written must be readable again without a crash
+    let _ = RrdpArchive::verify(path);
+    Handled { status: if err > 0 { 1 } else { 0 }, msg: format!("write ops ok={} err={}", ok, err) }
 }
 
 fn parse_archive_payload(payload: &[u8]) -> Option<(u8, Vec<Vec<u8>>, &[u8])> {
@@ -420,6 +471,17 @@ impl Exec {
                 info.nt(passed_magic && *status == 1);
                 if msg.contains("state=ok") {
                     info.class("state=ok");
+                }
+                if calls == CALL_ALL && passed_magic {
+                    // second pass: the collector's update operations on the same damaged file
+                    let w = self.worker.lock().unwrap().exec(OP_ARCHIVE, &archive_payload(CALL_WRITE, probes, file));
+                    self.note_alloc("archive-write", &w);
+                    match &w {
+                        Outcome::Done { status, msg, .. } if *status <= 1 => {
+                            info.class(if msg.starts_with("try_open") { "write=not-opened" } else if *status == 0 { "write=all-ops-ok" } else { "write=some-ops-refused" });
+                        }
+                        _ => return self.unexpected("archive-write", &w, file),
+                    }
                 }
                 Verdict::Pass
             }
@@ -1199,7 +1261,7 @@ pub trait SerDebug: Serialize + std::fmt::Debug {}
 impl<T: Serialize + std::fmt::Debug> SerDebug for T {}
 
 pub fn run(ctx: &Ctx, rep: &mut Report, replay: Option<&serde_json::Value>) {
-    rep.rule("(a) valid encodings of generated records (point header, manifest, object sequences, whole stored-point files, status, RRDP state) and RRDP archive files built with the real writer (1/2/4/1024 buckets, state + up to 6 objects, deletions leaving free blocks) under one mutation each: truncation, bit flip in a structural field or anywhere, length/count fields set to {0,1,len-1,len+1,rest+1,64Ki,limit,limit+1,2^31,2^32-1,2^32,2^40,2^62,2^63,2^64-2,2^64-1}, archive pointer/size/flag fields set to {0,1,2,self,other block,first block,inside index,EOF-1,EOF,EOF+1,2^31,2^63,2^64-1}, splices; (b) exhaustive sweeps over fixed bases: every truncation, every bit of every structural field, every length value for every length field; (c) arbitrary byte strings per decoder; (d) the seed corpus of the fuzz targets; each case runs in a worker process with panics caught, a cap on single allocations of max(16 MiB, 64 x input) and a CPU budget; non-trivial = the decoder got past at least one field (archives: past the magic) and then reported an error, or decoded a mutated input; distinct by serialised case");
+    rep.rule("(a) valid encodings of generated records (point header, manifest, object sequences, whole stored-point files, status, RRDP state) and RRDP archive files built with the real writer (1/2/4/1024 buckets, state + up to 6 objects, deletions leaving free blocks) under one mutation each: truncation, bit flip in a structural field or anywhere, length/count fields set to {0,1,len-1,len+1,rest+1,64Ki,limit,limit+1,2^31,2^32-1,2^32,2^40,2^62,2^63,2^64-2,2^64-1}, archive pointer/size/flag fields set to {0,1,2,self,other block,first block,inside index,EOF-1,EOF,EOF+1,2^31,2^63,2^64-1}, splices; (b) exhaustive sweeps over fixed bases: every truncation, every bit of every structural field, every length value for every length field; (c) arbitrary byte strings per decoder; (d) the seed corpus of the fuzz targets; archive cases get a second pass in which the collector's update operations (update/delete of present objects, 16 publishes of 1 byte..12 pages, state rewrite, verify) run on the damaged file; each case runs in a worker process with panics caught, a cap on single allocations of max(16 MiB, 64 x input) and a CPU budget; non-trivial = the decoder got past at least one field (archives: past the magic) and then reported an error, or decoded a mutated input; distinct by serialised case");
     rep.assume("a single allocation request above max(16 MiB, 64 x input length) counts as 'far beyond the file's size' (DESIGN §1 C27); constant-size allocations below that (the decoder's 65536-entry map pre-allocation, about 5.4 MB) are reported in largest_single_allocation_seen_per_decoder but not judged");
     rep.assume("more than 2 s of CPU time on an input of a few KiB counts as not terminating; a wall-clock timeout alone is dropped as inconclusive");
     rep.assume("the whole-engine leg (module c27e) covers caches written through the rsync transport (stored points, status file, trust anchors); RRDP archives are covered at the RrdpArchive level only");
